@@ -64,6 +64,27 @@ func (o *Out) Case(id, op string, args []string, implOut []string) {
 	o.impl.Flush()
 }
 
+// Batch runs fn over the argument sets with `workers` goroutines and writes the cases in order.
+func (o *Out) Batch(prefix, op string, argSets [][]string, workers int, fn func([]string) []string) {
+	res := make([][]string, len(argSets))
+	sem := make(chan struct{}, workers)
+	done := make(chan struct{})
+	for i := range argSets {
+		go func(i int) {
+			sem <- struct{}{}
+			res[i] = fn(argSets[i])
+			<-sem
+			done <- struct{}{}
+		}(i)
+	}
+	for range argSets {
+		<-done
+	}
+	for i := range argSets {
+		o.Case(fmt.Sprintf("%s%d", prefix, i), op, argSets[i], res[i])
+	}
+}
+
 func Want(op string) bool {
 	if *Only == "" {
 		return true
